@@ -237,7 +237,7 @@ def run(ctx):
         r = dict(b)
         r.update({"sys": "robust", "seed": 1, "mut": [], "id": "p:" + bkey(b)})
         probes.append(r)
-    pobs = sharded_replay(ctx, bins["release"], probes, "probe", par, pool, timeout=30)
+    pobs = sharded_replay(ctx, bins["release"], probes, "probe", par, pool, timeout=120)
     live = []
     for b, o in zip(bases, pobs):
         if o is None or o.get("skipped"):
@@ -256,7 +256,7 @@ def run(ctx):
             r.update({"sys": "robust", "seed": 5, "mut": [], "reader": "faulty", "fail_at": None, "only": gs,
                       "id": "fp:%s:%s" % (bkey(b), gs[0])})
             fprobes.append(r)
-    fobs = sharded_replay(ctx, bins["release"], fprobes, "fprobe", par, pool, timeout=30)
+    fobs = sharded_replay(ctx, bins["release"], fprobes, "fprobe", par, pool, timeout=120)
     log("[c01] probes done: %d bases, %d fault probes (%.1fs)" % (len(bases), len(fprobes), time.time() - ctx.t0))
 
     # ---- round 2: the recipes
@@ -265,18 +265,18 @@ def run(ctx):
         bb = {k: v for k, v in b.items() if k != "lens"}
         total = sum(b["lens"].values())
         big = total > 60000
-        nm = {"self": 60 if q else 1500}.get(b["base"], (40 if q else 800) if not big else (30 if q else 500))
+        nm = {"self": 40 if q else 1500}.get(b["base"], (30 if q else 800) if not big else (20 if q else 500))
         for i in range(nm):
             recipes.append(mutation_recipe(bb, rnd, i))
         # both byte orders on the generated bases, reader through the interposer on a sample
-        for i in range(4 if q else 60):
+        for i in range(3 if q else 60):
             r = mutation_recipe(bb, rnd, 100000 + i)
             r["reader"] = "faulty"
             r["fail_at"] = rnd.randrange(1 << 30)
             recipes.append(r)
         # truncation: every byte of every section of the small bases (quick: two generated
         # bases every byte, the others sampled), sampled positions for the large ones
-        every = (not q and total <= 6000) or (q and b in fault_bases[:2])
+        every = (not q and total <= 6000) or (q and b in fault_bases[:1])
         for sec, n in sorted(b["lens"].items()):
             gs = groups_for(sec)
             if not gs or n == 0:
@@ -284,7 +284,7 @@ def run(ctx):
             if every:
                 cuts = list(range(n))
             else:
-                k = min(n, (6 if q else 60) if not big else (4 if q else 40))
+                k = min(n, (4 if q else 60) if not big else (3 if q else 40))
                 cuts = sorted(set(rnd.randrange(n) for _ in range(k)))
             for at in cuts:
                 r = dict(bb)
@@ -296,7 +296,7 @@ def run(ctx):
         n = (o or {}).get("ops") or 0
         if not n:
             continue
-        cap = 60 if q else 100000
+        cap = 40 if q else 100000
         ks = range(n) if n <= cap else sorted(set(rnd.randrange(n) for _ in range(cap)))
         for k in ks:
             r = dict(r0)
@@ -310,14 +310,14 @@ def run(ctx):
             t = {"sec": sec, "tails": [tail]}
             if patch:
                 t["patch"] = patch
-            for k in range(40):
+            for k in range(25 if q else 60):
                 recipes.append({"sys": "robust", "base": "raw", "sections": secs, "seed": 2, "only": only, "tails": t,
                                 "reader": "faulty", "fail_at": k, "id": "fr:%s:%d:%d" % (name, len(tail), k)})
     rnd.shuffle(recipes)
     # slow recipes first within a shard does not matter; keep deterministic order
     t0 = time.time()
-    f_dev = pool.submit(sharded_replay, ctx, bins["dev"], recipes, "dev", max(1, par // 2), ThreadPoolExecutor(max_workers=par), 20)
-    f_rel = pool.submit(sharded_replay, ctx, bins["release"], recipes, "rel", max(1, par // 2), ThreadPoolExecutor(max_workers=par), 20)
+    f_dev = pool.submit(sharded_replay, ctx, bins["dev"], recipes, "dev", max(1, par // 2), ThreadPoolExecutor(max_workers=par), 120)
+    f_rel = pool.submit(sharded_replay, ctx, bins["release"], recipes, "rel", max(1, par // 2), ThreadPoolExecutor(max_workers=par), 120)
     obs = {"dev": f_dev.result(), "release": f_rel.result()}
     ctx.cov["replay_wall_s"] = round(time.time() - t0, 1)
     log("[c01] replayed %d recipes in both profiles: %.1fs" % (len(recipes), time.time() - t0))
